@@ -46,10 +46,14 @@ def make_files(h, wd, rng):
     pro = h.HvsrTraditionalProcessingSettings(smoothing=dict(operator="konno_and_ohmachi", bandwidth=40, center_frequencies_in_hz=np.geomspace(0.5, 20, 16)))
     pre.save(os.path.join(wd, "pre.json"))
     pro.save(os.path.join(wd, "pro.json"))
+    # second settings variant: the settings FILE carries an explicit fft_settings dictionary (a nested mutable value)
+    pro2 = h.HvsrTraditionalSingleAzimuthProcessingSettings(azimuth_in_degrees=30.0, fft_settings={"n": 32768},
+                                                           smoothing=dict(operator="log_rectangular", bandwidth=0.2, center_frequencies_in_hz=np.geomspace(0.5, 20, 12)))
+    pro2.save(os.path.join(wd, "pro2.json"))
     return names
 
 
-def reference(h, wd, fname):
+def reference(h, wd, fname, pro_file="pro.json"):
     """what read -> preprocess -> process -> write produce for this file alone with freshly loaded settings"""
     cwd = os.getcwd()
     os.chdir(wd)
@@ -57,11 +61,11 @@ def reference(h, wd, fname):
         with warnings.catch_warnings():
             warnings.simplefilter("ignore")
             pre = h.read_settings_object_from_file("pre.json")
-            pro = h.read_settings_object_from_file("pro.json")
+            pro = h.read_settings_object_from_file(pro_file)
             rec = h.read([[fname]])
             win = h.preprocess(rec, pre)
             res = h.process(win, pro)
-            out = f"ref_{fname}.csv"
+            out = f"ref_{pro_file}_{fname}.csv"
             h.write_hvsr_object_to_file(res, out, distribution_mc="lognormal", distribution_fn="lognormal")
             n = pro.fft_settings["n"]
         return open(out, "rb").read(), n
@@ -90,7 +94,8 @@ def main():
     # ---- real CLI --------------------------------------------------------------------------------
     names = make_files(h, wd, rng)
     refs = {stem: reference(h, wd, fn) for stem, fn in names.items() if stem in ("big1", "small1", "small2")}
-    for stem, (_, n) in refs.items():
+    refs2 = {stem: reference(h, wd, fn, "pro2.json") for stem, fn in names.items() if stem in ("big1", "small1", "small2")}
+    for stem, (_, n) in list(refs.items()) + list(refs2.items()):
         want = 65536 if stem.startswith("big") else 32768
         if n != want:
             raise MachineryError(f"instance construction: {stem} alone uses n={n}, expected {want}")
@@ -121,8 +126,10 @@ def main():
         if os.path.exists(tf):
             os.remove(tf)
         env["HVSRPY_VERIF_TRACE"] = tf
+        pro_file = "pro.json" if ci % 2 == 0 else "pro2.json"
+        cur_refs = refs if pro_file == "pro.json" else refs2
         cmd = [sys.executable, "-c", "from hvsrpy.cli import cli; cli()", "--no_figure", "--nproc", str(nproc),
-               "--preprocessing_settings_file", "pre.json", "--processing_settings_file", "pro.json"] + [names[f] for f in files]
+               "--preprocessing_settings_file", "pre.json", "--processing_settings_file", pro_file] + [names[f] for f in files]
         p = subprocess.run(cmd, cwd=wd, env=env, stdout=subprocess.PIPE, stderr=subprocess.STDOUT, text=True, timeout=600)
         if p.returncode != 0:
             run.violation("cli:failed", f"hvsrpy CLI exited with {p.returncode} for files={files} nproc={nproc}: {p.stdout[-400:]}",
@@ -133,15 +140,16 @@ def main():
             pid, sid, fname, nb, na = line.split()
             ev.append(dict(pid=int(pid), sid=int(sid), file=fname.replace(".mseed", ""), nb=NCLASS.get(None if nb == "None" else int(nb), 9),
                            na=NCLASS.get(None if na == "None" else int(na), 9)))
+        # with an explicit n in the settings file every task legitimately starts from class 1 (32 768): class 0/1 coincide
         runs.append(dict(files=list(files), nproc=nproc, ev=[dict(file=e["file"], nb=e["nb"], na=e["na"]) for e in ev]))
-        key_cfg = f"files={list(files)} nproc={nproc}"
+        key_cfg = f"files={list(files)} nproc={nproc} settings={pro_file}"
         for f in files:
             out = os.path.join(wd, f"{f}.csv")
             if not os.path.exists(out):
                 run.violation("cli:missing-output", f"{key_cfg}: {f}.csv was not written", dict(kind="cli", files=files, nproc=nproc))
                 continue
             got = open(out, "rb").read()
-            if got != refs[f][0]:
+            if got != cur_refs[f][0]:
                 cs = max(1, len(files) // nproc)
                 idx = list(files).index(f)
                 chunk = list(files[(idx // cs) * cs:(idx // cs) * cs + cs])
